@@ -170,6 +170,19 @@ pub fn c18_case(rng: &mut Rng, i: u64, st: &mut Stats) -> CaseOutcome {
     if let Err(e) = std::fs::create_dir_all(&dir) {
         panic!("HARNESS: cannot create scratch dir {:?}: {}", dir, e);
     }
+    // The folder may already hold files of an earlier, larger export with the same prefix and
+    // mode names: they must be replaced, not patched.
+    if rng.chance(1, 3) {
+        for m in &cfg.modes {
+            let mut old = String::from("digraph {\n  label=\"an earlier export\";\n");
+            for k in 0..rng.range(50, 400) {
+                old.push_str(&format!("  \"{}\" -> \"{}\" [label=\"x (C#{})\"];\n", k, k + 1, k));
+            }
+            old.push_str("}\n");
+            let _ = std::fs::write(dir.join(format!("{}_{}.dot", prefix, m.name)), old);
+        }
+        st.count("exports_over_existing_larger_files");
+    }
     let r = sut(|| scanner.generate_compiled_automata_as_dot(&prefix, &dir));
     let cleanup = |d: &Path| {
         let _ = std::fs::remove_dir_all(d);
@@ -386,6 +399,7 @@ pub fn c18(tier: Tier) -> i32 {
     )
     .floor("scanners_exported", 2_000)
     .floor("files_with_clusters", 500)
+    .floor("exports_over_existing_larger_files", 500)
     .floor("files_with_escaped_labels", 500)
     .floor("scanners_with_names_needing_escapes", 300)
     .floor("fault_missing_folder_error_returned", 20)
